@@ -1,7 +1,7 @@
 (* Executor ops for C19 (same names in goexec/seg.go).
    A descriptor on the wire: [id ty event haspts ptsv segnum segexp hassub subnum subexp vss]
    with vss = [] (no VSS signal id) or [k]. *)
-From Gots Require Import Base.Prelude Exec.ExecBase Model.SegDesc.
+From Gots Require Import Base.Prelude Base.NRange Exec.ExecBase Model.SegDesc.
 Import SegDesc.
 
 Definition zb (z : Z) : bool := negb (Z.eqb z 0).
@@ -21,9 +21,9 @@ Fixpoint descs_of_vals (l : list val) : option (list desc) :=
   | v :: t => match desc_of_val v, descs_of_vals t with Some d, Some r => Some (d :: r) | _, _ => None end
   end.
 
-Fixpoint nrange_from (n : nat) (start : N) : list N :=
-  match n with O => [] | S k => start :: nrange_from k (start + 1) end.
-Definition types256 : list N := nrange_from 256 0.
+
+
+
 
 (* the 24 condition combinations of one (incoming type, open type) cell, as bits of one number:
    bit index = ((ee*2 + pe)*2 + se)*3 + sub   with ee/pe/se = 1 when the event ids / pts values /
